@@ -21,6 +21,7 @@ import (
 	g "github.com/zenon-network/go-zenon/chain/genesis/mock"
 	"github.com/zenon-network/go-zenon/chain/nom"
 	"github.com/zenon-network/go-zenon/common/types"
+	"github.com/zenon-network/go-zenon/consensus"
 )
 
 // ---- history tree --------------------------------------------------------------------------------------
@@ -109,6 +110,7 @@ func (h *history) sameBytes(dm *nom.DetailedMomentum) bool {
 type forkSpec struct {
 	back   int // fork point = trunk tip - back
 	length int
+	skipAt int // >0: the branch's momentum number skipAt (0-based) leaves one slot empty (its pillar "missed" it)
 }
 
 // traffic puts some user blocks into A's pool.
@@ -176,7 +178,13 @@ func buildHistory(c *Ctx, a *producer, L int, forks []forkSpec) *history {
 				traffic(c, a, &pending, 30, 20)
 				contractTraffic(c, a, 30)
 			}
-			dm := a.momentum()
+			var dm *nom.DetailedMomentum
+			if fs.skipAt > 0 && i == fs.skipAt {
+				dm = a.momentumSkipping(2)
+				c.Hit("hist-branch-slot-skipped")
+			} else {
+				dm = a.momentum()
+			}
 			if i == 0 && dm.Momentum.Hash == trunk[fpH] {
 				panic("history: branch does not differ from the trunk")
 			}
@@ -784,15 +792,23 @@ func (r *syncRun) syncTo(f *syncFollower, p int, to int) bool {
 
 func init() {
 	register("sync-batches", func(c *Ctx) {
+		// epochs of ten minutes (two election ticks): the trunk of 78 momentums ends in epoch 1, the branch that forks 22 below
+		// its tip forks in epoch 0 — a switch to it crosses an epoch end (the real code's package variable, as its own tests set it)
+		origEpoch := consensus.EpochDuration
+		consensus.EpochDuration = 10 * time.Minute
+		defer func() { consensus.EpochDuration = origEpoch }()
 		a := newProducer()
 		defer a.stop()
 		L := 78
 		// the last branch forks in the election tick BEFORE the trunk tip's tick and runs past the end of the tip's tick, so that
 		// consensus points of a finished tick computed on the abandoned branch exist when the node switches (C06)
-		forks := []forkSpec{{36, 44}, {31, 36}, {30, 33}, {17, 20}, {6, 9}, {2, 2}, {1, 1}, {22, 40}}
+		// (that branch also leaves a slot empty right after the fork point: its statistics of the tick — and, with the epochs of
+		// ten minutes = two ticks this stream runs on, of the EPOCH that ends between the fork point and the trunk tip — differ
+		// from the trunk's, so statistics kept from the abandoned branch are visible)
+		forks := []forkSpec{{36, 44, 0}, {31, 36, 0}, {30, 33, 0}, {17, 20, 0}, {6, 9, 0}, {2, 2, 0}, {1, 1, 0}, {22, 40, 1}}
 		if c.Tier == "thorough" {
 			L = 110
-			forks = append(forks, forkSpec{50, 60}, forkSpec{12, 30}, forkSpec{3, 8})
+			forks = append(forks, forkSpec{50, 60, 0}, forkSpec{12, 30, 2}, forkSpec{3, 8, 0})
 		}
 		hist := buildHistory(c, a, L, forks)
 		r := &syncRun{c: c, hist: hist}
